@@ -195,6 +195,8 @@ func buildHeader(rng *rand.Rand, own, other *hblock, ch headerChoice) *headerAns
 		a.proof = writeBoc([]*node{hp, randCell(rng, 1)}, ch.opt)
 	case "not_exotic":
 		a.proof = writeBoc([]*node{{b: hp.b, x: tOrd, r: hp.r}}, ch.opt)
+	case "storedhash":
+		a.proof = writeBoc([]*node{{b: flipBit(hp.b, 8+rng.Intn(256)), x: hp.x, r: hp.r}}, ch.opt)
 	case "stale":
 		// one bit of gen_utime changed in the revealed header, the Merkle-proof cell keeps the old hash
 		info := hp.r[0].r[0]
@@ -237,6 +239,8 @@ func headerTamper(t string) (headerChoice, error) {
 		ch.form = "not_exotic"
 	case "proof_stale_hash":
 		ch.form = "stale"
+	case "proof_stored_hash":
+		ch.form = "storedhash"
 	default:
 		return ch, fmt.Errorf("unknown header tampering %q", t)
 	}
